@@ -19,10 +19,12 @@ Int_ == [type |-> <<"integer">>]
 \* pointer of a nullable integer
 Kinds == {"string", "integer", "number", "boolean", "arrint", "obj",
           "strdate", "strtime", "strdt", "stripv4", "stripv6", "intdt", "numdate", "booltime", "sizedint",
-          "arrmin", "strmin"}
+          "arrmin", "strmin", "arruniq", "arrintuniq"}
+\* "arruniq" / "arrintuniq": arrays (untyped items / integer items) that carry `uniqueItems: true`, a keyword the tool
+\* gives no meaning; the documents hold no duplicates, so it changes no verdict -- and must not make a call crash
 \* "arrmin" / "strmin": an array with minItems 1 / a string with minLength 1 and a pattern: the validators of a struct
 \* field sit behind the typed decode, and a nullable field's null must pass them (nil guards)
-FieldOnly == {"sizedint", "arrmin", "strmin"}
+FieldOnly == {"sizedint", "arrmin", "strmin", "arruniq"}   \* (an array without items cannot be a declared type)
 FieldCtx == {"req", "opt", "nested"}       \* positions that are struct fields (value validators apply)
 AddlKinds == {"string", "integer", "number", "boolean", "strdate", "strdt", "stripv4"}   \* string formats: the collected values stay strings
 \* "map": value of a property-less object with typed additionalProperties (a Go map); "maparr": element of an array
@@ -48,16 +50,19 @@ LeafOf(k) ==
     [] k = "booltime" -> [type |-> <<"boolean">>, format |-> "time"]
     [] k = "sizedint" -> ("type" :> <<"integer">>) @@ ("minimum" :> JNum(4)) @@ ("maximum" :> JNum(160))
     [] k = "arrmin"  -> [type |-> <<"array">>, items |-> Int_, minItems |-> 1]
+    [] k = "arruniq" -> [type |-> <<"array">>, ignored |-> <<"uniqueItems", "$comment">>]
+    [] k = "arrintuniq" -> [type |-> <<"array">>, items |-> Int_, ignored |-> <<"uniqueItems", "readOnly">>]
     [] k = "strmin"  -> [type |-> <<"string">>, minLength |-> 1, pattern |-> "p_a"]
 
 Values == << JNull, JBool(TRUE), JBool(FALSE), JNum(0), JNum(4), JNum(2), JNum(-12),
              JStr(<<>>), JStr(<<"a">>), JFmt("date"), JFmt("time"), JFmt("date-time"), JFmt("ipv4"), JFmt("ipv6"),
              JArr(<<>>), JArr(<<JNum(0)>>), JArr(<<JStr(<<"a">>)>>), JArr(<<JNum(2)>>),
+             JArr(<<JObj(<<KV("k", JNum(0))>>)>>), JArr(<<JNum(0), JArr(<<JNum(4)>>)>>),
              JObj(<<>>), JObj(<<KV("k", JNum(0))>>), JObj(<<KV("k", JStr(<<"a">>))>>) >>
 
 Wrap(x) == JObj(<<KV("x", x)>>)
 Valid0(k) == CASE k \in {"string", "strmin"} -> JStr(<<"a">>) [] k \in {"integer", "number", "intdt", "numdate", "sizedint"} -> JNum(4)
-               [] k \in {"boolean", "booltime"} -> JBool(TRUE) [] k \in {"arrint", "arrmin"} -> JArr(<<JNum(0)>>)
+               [] k \in {"boolean", "booltime"} -> JBool(TRUE) [] k \in {"arrint", "arrmin", "arruniq", "arrintuniq"} -> JArr(<<JNum(0)>>)
                [] k = "obj" -> JObj(<<KV("k", JNum(0))>>)
                [] k = "strdate" -> JFmt("date") [] k = "strtime" -> JFmt("time") [] k = "strdt" -> JFmt("date-time")
                [] k = "stripv4" -> JFmt("ipv4") [] k = "stripv6" -> JFmt("ipv6")
